@@ -120,14 +120,14 @@ func runFault(c *Ctx, caseNo int, in faultInput, srcDir string) ([]vt.Ev, *SyncR
 			// cancelled (the stream does not notice), and a little later the reader is released
 			ffs.BlockAt, ffs.BlockAfter, ffs.Release = in.K, in.J, make(chan struct{})
 			ffs.OnBlock = func() {
-				time.Sleep(300 * time.Millisecond)
+				time.Sleep(200 * time.Millisecond)
 				conn.Log(vt.Ev{"ev": "Fault", "ep": in.Kind[:1], "op": "cancelCall@readBlocked", "k": in.K})
 				if in.Kind[0] == 'R' {
 					cancelR()
 				} else {
 					cancelS()
 				}
-				time.Sleep(300 * time.Millisecond)
+				time.Sleep(200 * time.Millisecond)
 				close(ffs.Release)
 			}
 		}
@@ -186,7 +186,7 @@ func faultScenarios(c *Ctx) []faultInput {
 	out := []faultInput{
 		{Scenario: "small/empty", Src: small, CapS: 1, CapR: 1},
 		{Scenario: "small/dirty", Src: small, Dst: dirty, CapS: 0, CapR: 0},
-		{Scenario: "fanout300/slowdata", Src: fan, CapS: 32, CapR: 64, SlowData: 2000},
+		{Scenario: "fanout300/slowdata", Src: fan, CapS: 32, CapR: 64, SlowData: 600},
 		{Scenario: "dirfirst320/slowcallback", Src: dirFirst, CapS: 64, CapR: 64, CbDelayMS: 400, OnlyKinds: []string{"notify", "hasher"}},
 	}
 	if c.Thorough() {
